@@ -5,7 +5,7 @@ PROPS = {
         rapid("tg", "TestC18ThreadGroup", dict(shards=16, checks=200, timeout=600), dict(shards=16, checks=5000, timeout=3000)),
         rapid("limits", "TestC18Limits", dict(shards=16, checks=12, timeout=900), dict(shards=16, checks=200, timeout=3000)),
         rapid("caps", "TestC18Caps", dict(shards=16, checks=15, timeout=900), dict(shards=16, checks=200, timeout=3000)),
-        rapid("close", "TestC18Close", dict(shards=16, checks=40, timeout=900), dict(shards=16, checks=600, timeout=3000)),
+        rapid("close", "TestC18Close", dict(shards=16, checks=150, timeout=900), dict(shards=16, checks=600, timeout=3000)),
         rapid("tg-race", "TestC18ThreadGroup", dict(shards=8, checks=200), dict(shards=8, checks=1500, timeout=3000), race=True, tiers=["thorough"]),
         rapid("limits-race", "TestC18Limits", dict(shards=8, checks=10), dict(shards=8, checks=60, timeout=3000), race=True, tiers=["thorough"]),
         rapid("caps-race", "TestC18Caps", dict(shards=8, checks=10), dict(shards=8, checks=60, timeout=3000), race=True, tiers=["thorough"]),
